@@ -361,6 +361,10 @@ func main() {
 	}
 	fmt.Printf("property=%s tier=%s seed=%d evaluations=%d distinct_nontrivial=%d violations=%d known=%d races(repo/all)=%d/%d wall=%.0fs\n",
 		id, *tier, seed, merged.Evaluations, distinct, len(fresh), len(knownSeen), raceCounted, len(races), wall)
+	if !*keep {
+		// os.Exit below skips the deferred removal; replay files live in .cache/replays
+		os.RemoveAll(runDir)
+	}
 	if len(fresh) > 0 {
 		os.Exit(1)
 	}
